@@ -57,6 +57,8 @@ def text(t: Tree) -> str:
     if isinstance(t, str):
         return t
     k = t[0]
+    if k == "raw":  # ("raw", source text) -- used verbatim, no parentheses added (LEX universe)
+        return t[1]
     if k == "chain":  # ("chain", (op1, op2, ...), x, y, z, ...)
         parts = [text(t[2])]
         for op, x in zip(t[1], t[3:]):
@@ -208,7 +210,7 @@ def _conformance(samples: List[Tree]) -> Tuple[int, List[str]]:
     return n, bad
 
 
-def _check_classes(trees: Iterable[Tree], shard: int, nshards: int, res: Dict[str, Any], label: str, deadline: float) -> None:
+def _check_classes(trees: Iterable[Tree], shard: int, nshards: int, res: Dict[str, Any], label: str, deadline: float, names: Tuple[str, ...] = VARS) -> None:
     """O1 over a set of trees: group by real signature; z3 decides member == representative for all assignments."""
     from vt.z3enc.expr import Unsupported, distinguish
     import zlib
@@ -233,7 +235,7 @@ def _check_classes(trees: Iterable[Tree], shard: int, nshards: int, res: Dict[st
                 res["detail"] = "time budget exhausted in %s" % label
                 return
             try:
-                r, model = distinguish(text(rep), text(m), VARS)
+                r, model = distinguish(text(rep), text(m), names)
             except Unsupported as e:
                 res["inconclusive"] += 1
                 res["detail"] = "unsupported: %s" % e
@@ -244,7 +246,7 @@ def _check_classes(trees: Iterable[Tree], shard: int, nshards: int, res: Dict[st
                 if res["sample"] is None:
                     res["sample"] = {"universe": label, "same_signature": [text(rep), text(m)], "z3": "unsat (equal for every assignment)"}
             elif r == "sat":
-                res["cex"].append({"kind": "O1", "e1": text(rep), "e2": text(m), "assignment": model, "universe": label})
+                res["cex"].append({"kind": "O1", "e1": text(rep), "e2": text(m), "assignment": model, "universe": label, "names": list(names)})
                 return
             else:
                 res["inconclusive"] += 1
@@ -351,6 +353,27 @@ def rand_universe(seed: int, count: int) -> List[Tree]:
     return out
 
 
+LEX_NAMES = ("p", "q", "r")
+
+
+def lex_universe() -> Tuple[List[Tree], Tuple[str, ...]]:
+    """Texts that differ only in where the token boundaries fall: every keyword expression ``X if Y else Z`` (also as the
+    left operand of ``+ 1``, inside ``abs()`` and negated) over three names, next to the single identifier its text
+    spells once the blanks are removed (``p if q else r`` / ``pifqelser``), in both orders of first use.  The fused
+    identifiers are ordinary free variables of the encoding, so z3 separates any two members of a class at once."""
+    fused: List[str] = []
+    trees: List[Tree] = []
+    for i, (x, y, z) in enumerate(itertools.product(LEX_NAMES, repeat=3)):
+        src = "%s if %s else %s" % (x, y, z)
+        f = "".join(src.split())
+        fused.append(f)
+        forms = [(src, f), (src + " + 1", f + " + 1"), ("1 + (%s)" % src, "1 + (%s)" % f), ("abs(%s)" % src, "abs(%s)" % f), ("-(%s)" % src, "-(%s)" % f)]
+        for a, b in forms:
+            pair = [("raw", a), ("raw", b)]
+            trees += pair if i % 2 == 0 else pair[::-1]
+    return trees, LEX_NAMES + tuple(fused)
+
+
 def _make(param):
     what, arg, shard, nshards, budget = param
 
@@ -387,6 +410,9 @@ def _make(param):
             trees = [("chain", (o,), x, y) for o in ops for x in lv for y in lv]
             trees += [("chain", (o1, o2), x, y, z) for o1 in ops for o2 in ops for x in lv for y in lv for z in lv]
             _check_classes(trees, shard, nshards, res, "CMP", deadline)
+        elif what == "LEX":
+            trees, names = lex_universe()
+            _check_classes(trees, shard, nshards, res, "LEX", deadline, names=names)
         elif what == "BIGC":
             # constants around the places where a numeric representation could change (2**31, 2**53, 2**63, 2**64, 10**16):
             # O1 over all expressions with <= 3 nodes whose constants come from that table
@@ -439,8 +465,9 @@ def _replay(param, c: Dict[str, Any]) -> Dict[str, Any]:
         return {"reproduced": False, "fingerprint": "", "detail": "signatures equal on the real code"}
     ev = ExpressionEvaluator()
     a = c["assignment"]
-    v1 = ev.compile(c["e1"], set(VARS))(**a)
-    v2 = ev.compile(c["e2"], set(VARS))(**a)
+    names = set(c.get("names") or VARS)
+    v1 = ev.compile(c["e1"], names)(**a)
+    v2 = ev.compile(c["e2"], names)(**a)
     if s1 == s2 and v1 != v2:
         return {"reproduced": True, "fingerprint": "C12.%s:same-signature-different-value" % kind.split(":")[0], "detail": "%s = %r but %s = %r at %r, same signature %s" % (c["e1"], v1, c["e2"], v2, a, s1["ast"][:120])}
     return {"reproduced": False, "fingerprint": "", "detail": "sig equal=%s values %r %r" % (s1 == s2, v1, v2)}
@@ -452,9 +479,9 @@ BIG_CONSTS = [2 ** 31 - 1, 2 ** 31, 2 ** 53 - 1, 2 ** 53, 2 ** 53 + 1, 2 ** 63 -
 def obligations(tier: str) -> List[Ob]:
     ns = 16
     if tier == "quick":
-        plan = [("U", 5, 400.0), ("NEST", 2, 120.0), ("BIGC", 3, 120.0), ("CMP", 3, 120.0), ("RAND", 600, 60.0)]
+        plan = [("U", 5, 400.0), ("NEST", 2, 120.0), ("BIGC", 3, 120.0), ("CMP", 3, 120.0), ("LEX", 3, 60.0), ("RAND", 600, 60.0)]
     else:
-        plan = [("U", 5, 1500.0), ("NEST", 2, 300.0), ("NEST", 3, 1500.0), ("BIGC", 3, 300.0), ("CMP", 3, 300.0), ("RAND", 6000, 900.0)]
+        plan = [("U", 5, 1500.0), ("NEST", 2, 300.0), ("NEST", 3, 1500.0), ("BIGC", 3, 300.0), ("CMP", 3, 300.0), ("LEX", 3, 120.0), ("RAND", 6000, 900.0)]
     obs = []
     for what, arg, budget in plan:
         obs.append(
@@ -468,6 +495,7 @@ def obligations(tier: str) -> List[Ob]:
                 bound={"U": "all expressions with <= %d AST nodes over leaves {a,b,c,0,1,2,3}, unary -/abs, binary + - * // %% < == min max, **2/**3, if-else; O1 per signature class, O2 all single AC moves, O3 all single-point mutations (<=4 nodes)" % arg,
                        "NEST": "every %s of atoms (7 leaves + all 3-node + * - // expressions over {a,b,2} + -a + abs(b)) joined by + or *: O1 + O2" % ("pair" if arg == 2 else "triple (both bracketings, reduced atom pool)"),
                        "CMP": "all comparisons x op y and chains x op1 y op2 z over {a, b, c, 1} and < <= > >= == != (2400 expressions): O1 per signature class",
+                       "LEX": "270 texts over names {p, q, r}: every X if Y else Z (bare, + 1, 1 + (..), abs(..), negated) next to the identifier its text spells without blanks (pifqelser), both orders of first use in one process: O1 per signature class",
                        "BIGC": "all expressions with <= 3 AST nodes over {a, b} and 11 integer constants around 2**31, 2**53, 2**63, 2**64, 10**16: O1 per signature class",
                        "RAND": "%d VERIF_SEED-seeded expressions of 6..11 nodes: O2 moves + up to 12 mutations each (a draw, not a bound)" % arg}[what],
                 targets=["semantiva/metadata/semantic_id.py:normalize_expression_sig_v1", "semantiva/metadata/semantic_id.py:_dump_ast_commutative"],
